@@ -263,8 +263,11 @@ func (b *expandBody) expandChild(child hcl.Body, i *iteration, valueMarks cty.Va
 func (b *expandBody) JustAttributes() (hcl.Attributes, hcl.Diagnostics) {
 	// blocks aren't allowed in JustAttributes mode and this body can
 	// only produce blocks, so we'll just pass straight through to our
-	// underlying body here.
-	return b.original.JustAttributes()
+	// underlying body here, but the attributes still need access to our
+	// iteration variables and value marks, and must not include attributes
+	// already consumed by an earlier PartialContent call.
+	attrs, diags := b.original.JustAttributes()
+	return b.prepareAttributes(attrs), diags
 }
 
 func (b *expandBody) MissingItemRange() hcl.Range {
